@@ -2,8 +2,10 @@
  * SPDX-License-Identifier: GPL-3.0-or-later */
 
 #include "nosv_priv.h"
+#include <inttypes.h>
 #include <stdint.h>
 #include <stdlib.h>
+#include <string.h>
 #include "chan.h"
 #include "common.h"
 #include "emu.h"
@@ -551,12 +553,25 @@ pre_type(struct emu *emu)
 		return -1;
 	}
 
+	/* The jumbo data holds the 4 bytes of the type id followed by the
+	 * label, which must be a null-terminated string inside the data */
+	uint32_t size = emu->ev->payload->jumbo.size;
+	if (size < 4 + 1) {
+		err("jumbo data too short for a task type: %"PRIu32" bytes", size);
+		return -1;
+	}
+
 	const uint8_t *data = &emu->ev->payload->jumbo.data[0];
 	uint32_t typeid;
 	memcpy(&typeid, data, 4); /* May be unaligned */
 	data += 4;
 
 	const char *label = (const char *) data;
+
+	if (memchr(label, '\0', size - 4) == NULL) {
+		err("task type label is not null-terminated");
+		return -1;
+	}
 
 	struct nosv_proc *proc = EXT(emu->proc, 'V');
 	struct task_info *info = &proc->task_info;
